@@ -21,6 +21,16 @@ GEN = ["Schedule"]
 HARNESS = os.path.join(vlib.VERIF, "harness", "h_run.cpp")
 KEY_GAP = "file-number-gap-when-sampling-period-equals-time-step"
 
+CLASS_TEXT = {
+    "run": "the run did not execute its iterations 0..N-1 on a consistent population",
+    "time": "simulated time does not advance by one time step per iteration until the duration is reached (or the population is empty)",
+    "numbering": "mesh files are not written in pairs numbered 1..K without gaps",
+    "count": "the number of file pairs is not within one of T/S + 1",
+    "content": "a mesh file is not parseable or does not describe exactly the cells alive when it was written",
+    "shape": "the statistics table is not one header followed by rows with as many fields as the header",
+    "records": "statistics are not recorded at every 50th iteration and at the last one with one row per cell alive when recorded",
+    "values": "a statistics row does not show the cell's values to the printed precision",
+}
 STATS_PERIOD = 50          # the property's own numbers (NOT read from the generated file: the oracle is independent)
 CHECKED = ["cell_id", "type_id", "area", "volume", "target_volume", "pressure"]
 
@@ -41,8 +51,10 @@ CORPUS = [
     mk(40e-7, 1e-7, 2.5e-7, sched="3:0:R", tag="corpus-empty"),
     # a removal in a recorded iteration (50): the row of the removed cell is still written; first of two cells removed
     mk(70e-7, 1e-7, 7.3e-7, n=2, sched="50:0:R", instr=1, tag="corpus-removed-in-recorded-iteration"),
-    # division (iteration 5 is a divider iteration), then removal of a daughter
-    mk(23e-7, 1e-7, math.pi * 1e-7, mesh="ico1", n=1, sched="5:0:D,12:1:R", tag="corpus-division"),
+    # division (iteration 5 is a divider iteration)
+    mk(23e-7, 1e-7, math.pi * 1e-7, mesh="ico1", n=1, sched="5:0:D", tag="corpus-division"),
+    # division at 50 (recorded, divider iteration), later both daughters removed in the same iteration: empty population
+    mk(80e-7, 1e-7, 1.5e-7, mesh="ico1", n=1, sched="50:0:D,57:0:R,57:1:R", instr=1, tag="corpus-division-extinction"),
 ]
 
 RATIOS = [1.0, 1.0, 1.5, 2.0, math.pi, 7.3, 50.0001, 10.0, 1.0000000001, 3.0, 25.0]
@@ -63,22 +75,29 @@ def gen_case(r, tier):
     niter = r.choice([1, 2, 3, 7, 49, 50, 51, 52, 100, 101]) if r.randint(0, 3) == 0 else r.randint(1, nmax)
     frac = r.choice([0.0, 0.0, 0.5, r.uniform(0.01, 0.99)])
     T = dt * (niter - 1 + (frac if frac > 0 else 1.0))
-    mesh = "ico1" if r.randint(0, 5) == 0 else "cube"
+    mesh = "ico1" if (phys and r.randint(0, 4) == 0) else "cube"
     n = r.choice([1, 1, 2, 2, 3])
     sched = []
     nev = r.choice([0, 0, 1, 1, 2, 3])
+    # a division makes two daughters in contact; a cell in contact with a removed one becomes unstable a few iterations later
+    # (solver throws "refinement failed": another property's business), so: divisions XOR single removals, and cells in
+    # contact only in runs without removals.  The removal of the whole population in one iteration is always possible.
+    divide = mesh == "ico1" and r.randint(0, 2) > 0
     for _ in range(nev):
         it = r.choice([0, 1, 49, 50, 51, 5, 10, 100, r.randint(0, max(0, niter - 1))])
         if it >= niter:
             it = r.randint(0, max(0, niter - 1))
-        act = "D" if (mesh == "ico1" and r.randint(0, 1)) else "R"
-        sched.append("%d:%d:%s" % (it, r.randint(0, 3), act))
-    if r.randint(0, 11) == 0:      # the whole population disappears
+        sched.append("%d:%d:%s" % (it - it % 5 if divide else it, r.randint(0, 3), "D" if divide else "R"))
+    extinct = r.randint(0, 9) == 0
+    if extinct:      # the whole population disappears
         it = r.randint(0, max(0, niter - 1))
-        sched += ["%d:%d:R" % (it, p) for p in range(n + 2)]
+        if divide and sched:
+            it = max(it, max(int(x.split(":")[0]) for x in sched) + 1)
+        sched += ["%d:%d:R" % (it, p) for p in range(2 * (n + nev) + 1)]
     g = r.choice([0.0, 0.0, 0.4, -0.3, 1.0])
-    minv = r.choice([0.0, 0.0, 0.0, 0.999, 0.98]) if phys else 0.0
-    gap = r.choice([5.0, 5.0, 0.15])
+    removals = any(x.endswith("R") for x in sched)
+    minv = r.choice([0.0, 0.0, 0.0, 0.999, 0.98]) if (phys and not divide) else 0.0
+    gap = r.choice([5.0, 5.0, 0.15]) if not (removals or minv > 0) else 5.0
     return mk(T, dt, S, mesh=mesh, n=n, instr=r.randint(0, 1), phys=phys, g=g, minv=minv, gap=gap, sched=",".join(sched), tag="gen")
 
 
@@ -96,7 +115,7 @@ def run_harness(exe, lines):
     crashes = []
     i = 0
     while i < len(lines):
-        ans, rc, err = vlib.run_lines(exe, lines[i:], timeout=3000)
+        ans, rc, err = vlib.run_lines(exe, lines[i:], timeout=900)
         cur, k = [], i
         for l in ans:
             cur.append(l)
@@ -311,29 +330,29 @@ def oracle(c, o, out, stats):
     bad = []
     T, dt, S = Fr(c["T"]), Fr(c["dt"]), Fr(c["S"])
     if o["status"] != "ok" or o["end"] is None:
-        return ["run ended with status %r" % o["status"]]
+        return [("run", "run ended with status %r" % o["status"])]
     its, end = o["its"], o["end"]
     N = end["N"]
     # ---- iterations and time
     if [x["k"] for x in its] != list(range(N)):
-        bad.append("iterations executed: %r..., final counter %d" % ([x["k"] for x in its][:5], N))
+        bad.append(("run", "iterations executed: %r..., final counter %d" % ([x["k"] for x in its][:5], N)))
         return bad
     t = 0.0
     alive = list(o["init"]["ids"])
     for x in its:
         if unhex(x["tb"]) != t:
-            bad.append("iteration %d starts at time %r, expected %r" % (x["k"], unhex(x["tb"]), t)); break
+            bad.append(("time", "iteration %d starts at time %r, expected %r" % (x["k"], unhex(x["tb"]), t))); break
         if unhex(x["ta"]) != t + c["dt"]:
-            bad.append("iteration %d: time advanced from %r to %r, time step %r" % (x["k"], t, unhex(x["ta"]), c["dt"])); break
+            bad.append(("time", "iteration %d: time advanced from %r to %r, time step %r" % (x["k"], t, unhex(x["ta"]), c["dt"]))); break
         if not (t < c["T"]) or not alive:
-            bad.append("iteration %d executed at time %r with %d cells (duration %r)" % (x["k"], t, len(alive), c["T"])); break
+            bad.append(("time", "iteration %d executed at time %r with %d cells (duration %r)" % (x["k"], t, len(alive), c["T"]))); break
         if x["A"] != alive:
-            bad.append("iteration %d starts with cells %r, previous one ended with %r" % (x["k"], x["A"], alive)); break
+            bad.append(("run", "iteration %d starts with cells %r, previous one ended with %r" % (x["k"], x["A"], alive))); break
         t, alive = unhex(x["ta"]), x["E"]
     if unhex(end["t"]) != t or end["ids"] != alive:
-        bad.append("final state (t=%r, cells %r) is not the state after the last iteration (t=%r, %r)" % (unhex(end["t"]), end["ids"], t, alive))
+        bad.append(("time", "final state (t=%r, cells %r) is not the state after the last iteration (t=%r, %r)" % (unhex(end["t"]), end["ids"], t, alive)))
     if t < c["T"] and alive:
-        bad.append("run stopped at time %r < duration %r with %d cells alive" % (t, c["T"], len(alive)))
+        bad.append(("time", "run stopped at time %r < duration %r with %d cells alive" % (t, c["T"], len(alive))))
     ended_by_time = bool(alive) or (its and not (unhex(its[-1]["ta"]) < c["T"]))
     # ---- files
     K = end["fn"]
@@ -346,19 +365,19 @@ def oracle(c, o, out, stats):
         if names != want:
             nums = sorted(int(m.group(1)) for m in (re.fullmatch(r"result_(\d+)\.vtk", x) for x in (names or [])) if m)
             missing = sorted(set(range(1, (max(nums) if nums else 0) + 1)) - set(nums))
-            bad.append("%s holds files numbered %s (last number %d): missing %r, unexpected %r"
-                       % (sub, _ranges(nums), K, missing[:6], [x for x in (names or []) if x not in want][:4]))
+            bad.append(("numbering", "%s holds files numbered %s (last number %d): missing %r, unexpected %r"
+                       % (sub, _ranges(nums), K, missing[:6], [x for x in (names or []) if x not in want][:4])))
     if its and N >= 1:
         Fl = math.floor(T / S)
         if ended_by_time and abs(K - (Fl + 1)) > 1:
-            bad.append("%d file pairs for T/S = %.6g (floor(T/S)+1 = %d)" % (K, float(T / S), Fl + 1))
+            bad.append(("count", "%d file pairs for T/S = %.6g (floor(T/S)+1 = %d)" % (K, float(T / S), Fl + 1)))
     written = {}          # file number -> (iteration, cells at its start)
     prev = 0
     for x in its:
         for nb in range(prev + 1, x["fn"] + 1):
             written[nb] = (x["k"], x["A"])
         if x["fn"] < prev:
-            bad.append("file number decreased at iteration %d" % x["k"])
+            bad.append(("numbering", "file number decreased at iteration %d" % x["k"]))
         prev = max(prev, x["fn"])
     stats["files"] += len(written)
     nparsed = 0
@@ -370,14 +389,14 @@ def oracle(c, o, out, stats):
         try:
             msg, cv = check_cell_file(cp, a)
             if msg:
-                bad.append("cell_data/result_%d.vtk (written in iteration %d): %s" % (nb, k, msg))
+                bad.append(("content", "cell_data/result_%d.vtk (written in iteration %d): %s" % (nb, k, msg)))
             else:
                 msg = check_face_file(fp, a, cv)
                 if msg:
-                    bad.append("face_data/result_%d.vtk (written in iteration %d): %s" % (nb, k, msg))
+                    bad.append(("content", "face_data/result_%d.vtk (written in iteration %d): %s" % (nb, k, msg)))
             nparsed += 2
         except VtkError as e:
-            bad.append("result_%d.vtk is not parseable: %s" % (nb, e))
+            bad.append(("content", "result_%d.vtk is not parseable: %s" % (nb, e)))
         if len(bad) > 8:
             break
     stats["files_parsed"] += nparsed
@@ -389,26 +408,26 @@ def oracle(c, o, out, stats):
     else:
         p = os.path.join(out, "simulation_statistics.csv")
         if not os.path.exists(p):
-            bad.append("simulation_statistics.csv is missing")
+            bad.append(("shape", "simulation_statistics.csv is missing"))
             return bad
         txt = open(p).read()
         if txt and not txt.endswith("\n"):
-            bad.append("statistics file does not end with a line end")
+            bad.append(("shape", "statistics file does not end with a line end"))
         lines = txt.split("\n")[:-1]
     header, rows = parse_table(lines)
     if header is None:
-        bad.append("statistics table is empty (no header)")
+        bad.append(("shape", "statistics table is empty (no header)"))
         return bad
     if any(r == header for r in rows):
-        bad.append("header line repeated")
+        bad.append(("shape", "header line repeated"))
     col = {nm: i for i, nm in enumerate(header)}
     for need in ["iteration", "simulation_time"] + CHECKED:
         if need not in col:
-            bad.append("statistics header has no column %r: %r" % (need, header))
+            bad.append(("shape", "statistics header has no column %r: %r" % (need, header)))
             return bad
     for r in rows:
         if len(r) != len(header):
-            bad.append("a row has %d fields, the header %d: %r" % (len(r), len(header), ",".join(r)[:120]))
+            bad.append(("shape", "a row has %d fields, the header %d: %r" % (len(r), len(header), ",".join(r)[:120])))
             return bad
     expect_recs = [k for k in range(N) if k % STATS_PERIOD == 0] + [N]
     mids = {x["k"]: x["M"] for x in its}
@@ -416,7 +435,7 @@ def oracle(c, o, out, stats):
     # the rows, grouped by record with the logged write_data calls
     recs = o["recs"]
     if [r["it"] for r in recs] != expect_recs:
-        bad.append("statistics recorded at iterations %r, expected %r" % ([r["it"] for r in recs][:12], expect_recs[:12]))
+        bad.append(("records", "statistics recorded at iterations %r, expected %r" % ([r["it"] for r in recs][:12], expect_recs[:12])))
     pos = 0
     for ri, k in enumerate(expect_recs):
         want_ids = exp_cells[ri]
@@ -426,29 +445,29 @@ def oracle(c, o, out, stats):
         got_ids = [g[col["cell_id"]] for g in grp]
         if got_ids != [str(i) for i in want_ids]:
             nxt_rows = [r[col["iteration"]] + ":" + r[col["cell_id"]] for r in rows[pos:pos + 4]]
-            bad.append("record of iteration %d has rows for cells %r, alive when recorded: %r (next rows %r)" % (k, got_ids, want_ids, nxt_rows))
+            bad.append(("records", "record of iteration %d has rows for cells %r, alive when recorded: %r (next rows %r)" % (k, got_ids, want_ids, nxt_rows)))
             break
         stats["rows"] += len(grp)
         rec = recs[ri] if ri < len(recs) and recs[ri]["it"] == k else None
         if rec is None:
             continue
         if [q["id"] for q in rec["cells"]] != want_ids:
-            bad.append("write_data of iteration %d received cells %r, alive when recorded: %r" % (k, [q["id"] for q in rec["cells"]], want_ids))
+            bad.append(("records", "write_data of iteration %d received cells %r, alive when recorded: %r" % (k, [q["id"] for q in rec["cells"]], want_ids)))
             break
         for g, q in zip(grp, rec["cells"]):
             if g[col["simulation_time"]] != "%.2e" % unhex(rec["t"]):
-                bad.append("iteration %d: time column %s, simulation time %r" % (k, g[col["simulation_time"]], unhex(rec["t"])))
+                bad.append(("values", "iteration %d: time column %s, simulation time %r" % (k, g[col["simulation_time"]], unhex(rec["t"]))))
             if g[col["type_id"]] != str(q["type"]):
-                bad.append("iteration %d cell %d: type column %s, cell type %d" % (k, q["id"], g[col["type_id"]], q["type"]))
+                bad.append(("values", "iteration %d cell %d: type column %s, cell type %d" % (k, q["id"], g[col["type_id"]], q["type"])))
             for nm in ("area", "volume", "target_volume", "pressure"):
                 if g[col[nm]] != "%.3e" % q[nm]:
-                    bad.append("iteration %d cell %d: column %s = %s, the cell says %r (%s)" % (k, q["id"], nm, g[col[nm]], q[nm], "%.3e" % q[nm]))
+                    bad.append(("values", "iteration %d cell %d: column %s = %s, the cell says %r (%s)" % (k, q["id"], nm, g[col[nm]], q[nm], "%.3e" % q[nm])))
             stats["values"] += 7
         if len(bad) > 8:
             break
     else:
         if pos != len(rows):
-            bad.append("%d unexpected extra rows, first: %r" % (len(rows) - pos, ",".join(rows[pos])[:100]))
+            bad.append(("records", "%d unexpected extra rows, first: %r" % (len(rows) - pos, ",".join(rows[pos])[:100])))
     return bad
 
 
@@ -581,6 +600,7 @@ def evaluate(cases, exe, drv, V, tag):
                 elif int(a[0].split()[1]) != na:
                     V.fail_input("cell_data/result_%d.vtk read back by the real mesh_reader holds %s cells, %d were alive" % (nb, a[0].split()[1], na),
                                  {"line": lines[i], "case": cases[i]}, key=None)
+        fails = []
         for i, (c, o) in enumerate(zip(cases, obs)):
             if o is None:
                 continue
@@ -605,14 +625,19 @@ def evaluate(cases, exe, drv, V, tag):
                                       "records": [r["it"] for r in o["recs"]][:6], "final_cells": o["end"]["ids"] if o["end"] else None})
             if bad:
                 st["oracle_failures"] += 1
-                gap = any("missing [" in b and "missing []" not in b for b in bad)
-                V.fail_input(bad[0], {"line": lines[i], "case": c, "all": bad[:6]}, key=KEY_GAP if gap and c["S"] == c["dt"] else None)
+                fails.append((len(o["its"]), i, bad))
             if i in model:
                 d = model_compare(c, o, model[i])
                 if d:
                     st["model_disagreements"] += 1
                     if st["model_disagreements"] <= 3:
                         V.fail_tie("correspondence", "model and implementation differ on `%s`: %s" % (lines[i], d[0]), case=c, all=d[:4])
+        # one report per kind of failure, on the shortest run that shows it
+        for _, i, bad in sorted(fails, key=lambda f: (f[0], f[1])):
+            cls, detail = bad[0]
+            gap = cls == "numbering" and "missing []" not in detail and cases[i]["S"] == cases[i]["dt"]
+            V.fail_input(CLASS_TEXT[cls], {"line": lines[i], "case": cases[i], "detail": detail, "all": [d for _, d in bad[:6]]},
+                         key=KEY_GAP if gap else None)
     finally:
         shutil.rmtree(root, ignore_errors=True)
     st["distinct"] = len(st["distinct"])
@@ -692,7 +717,7 @@ def replay(ctx):
     print("iterations %d, file pairs %d, rows %d" % (st["iterations"], st["files"], st["rows"]))
     for c in V.concrete:
         print("FAILS:", c["what"])
-        for a in c["input"].get("all", [])[1:]:
+        for a in c["input"].get("all", []):
             print("      ", a)
     for b in V.broken:
         print("MODEL:", b["what"])
